@@ -48,6 +48,19 @@ let init () =
         ^ " FA " ^ scirc (circle_fill_area c st)
         ^ " DRAW " ^ m ^ " DRAWI " ^ m ^ " PIX " ^ pix_out (circle_styled_pixels c st)
     | _ -> "BAD-ARGS");
+  (* stroke_area()/fill_area() of three fixed shapes for one stroke width / alignment: exercises the saturating operations
+     on the stroke-width path (saturating_add(1)/2, saturating_as, saturating_add/sub of 2*offset) at the u32/i32 edges *)
+  register "style_split" (function
+    | [w; al] ->
+        let st = style_of w al "1" "1" in
+        let r = { tl = pt "5" "7"; sz = { sw = z_in "10"; sh = z_in "4" } }
+        and c = { c_tl = pt "3" "3"; c_d = z_in "9" }
+        and e = { e_tl = pt "2" "4"; e_sz = { sw = z_in "6"; sh = z_in "11" } } in
+        "R " ^ src (rect_stroke_area r st) ^ " / " ^ src (rect_fill_area r st)
+        ^ " C " ^ scirc (circle_stroke_area c st) ^ " / " ^ scirc (circle_fill_area c st)
+        ^ " E " ^ sell (ellipse_stroke_area e st) ^ " / " ^ sell (ellipse_fill_area e st)
+        ^ " SBB " ^ src (rect_styled_bbox r st)
+    | _ -> "BAD-ARGS");
   register "ell_styled" (function
     | [x; y; ew; eh; w; al; stroke; fill] ->
         let e = { e_tl = pt x y; e_sz = { sw = z_in ew; sh = z_in eh } } and st = style_of w al stroke fill in
